@@ -111,12 +111,35 @@ def same_name_materializations(rng, n):
     return out
 
 
+def dedup_over_chain_of_dedups(rng, n):
+    """deduplicate( deduplicate(x) chain deduplicate(y) ), also with the operands materialized or transferred, and a
+    window on top: first-occurrence order of the concatenation."""
+    a, b = K(1), K(2)
+    out = []
+    for _ in range(n):
+        def leaf(i):
+            rows = [{a: v, b: 10 * v} for v in rng.sample(range(1, 7), rng.choice([2, 3, 4]))]
+            return ("leaf", i, ("it", 0), [a, b], rows)
+        ops = []
+        for i in (1, 2):
+            x = ("un", ("dedup",), leaf(i))
+            if rng.random() < 0.35:
+                x = ("mat", 20 + i, x)
+            ops.append(x)
+        p = ("un", ("dedup",), ("chain", ops[0], ops[1]))
+        if rng.random() < 0.5:
+            p = ("un", ("slice", 0, 2), p)
+        out.append(p)
+    return out
+
+
 def make_cases(rng, tier):
     progs = []
     progs += exhaustive_programs(2 if tier == "quick" else 3)
     progs += adjacent_slices(rng, tier)
     progs += dedup_twice(rng, 40 if tier == "quick" else 600)
     progs += same_name_materializations(rng, 30 if tier == "quick" else 400)
+    progs += dedup_over_chain_of_dedups(rng, 30 if tier == "quick" else 400)
     n = 500 if tier == "quick" else 20000
     for _ in range(n):
         p, _ = ip.gen_prog(rng, rng.choice([1, 2, 3, 4, 6, 8, 12]))
